@@ -174,7 +174,7 @@ CLAIMS = {
           "preserved by all 19 events under LS.tame: once an Rflush is queued, a reply to the request it flushes was queued before it, and "
           "if there is none there never will be, in any continuation), rflush_at_most_once, cancel_before_start_marks, cancelled_never_runs "
           "(no continuation of any schedule hands a request cancelled before process.check to the implementation), cancelled_gets_no_reply, "
-          "rflush_immediate_if_absent, lookup_finds_newest. Correspondence: Tflush at every stage and in pairwise orderings of schedule "
+          "rflush_immediate_if_absent, lookup_finds_newest, self_flush_finds_nothing (a Tflush naming its own tag is treated as a Tflush of a tag that is not outstanding). Correspondence: Tflush at every stage and in pairwise orderings of schedule "
           "points; every region log replayed through the model; order/cancel/state oracle on the wire.",
   "note": TB + "The ordering theorem is partial: it covers schedules in which no Tflush is aimed at a Tflush and no waiting flushes are handed "
           "over to a same-tag successor (LS.tame, stated in the theorem); flush of a flush and several flushes of one request are decided by "
